@@ -14,7 +14,7 @@ def reset():
 meta = json.load(open(os.path.join(seed, 'meta.json')))
 demo_cmd = meta['demo_cmd']
 demo_cmd = re.sub(r'/tmp/wt-c\d+(-target)?', lambda m: '/tmp/wt-me' + (m.group(1) or ''), demo_cmd)
-demo_cmd = re.sub(r'^cd \S+ && ', '', demo_cmd)
+demo_cmd = re.sub(r'^cd .+? && ', '', demo_cmd)
 out = {'demo_cmd': demo_cmd}
 reset()
 sh('git checkout -q --detach $(git -C /repo rev-parse HEAD)')
